@@ -4,7 +4,10 @@ Proof: Props/C17.v (Model/MapReduce.v, Model/Slice.v).
 Tie: the real jug.mapreduce functions are run on generated (length, map_step, reduce_step,
 index, slice, slice-of-slice) inputs; the task tree they build, the values they compute and
 the errors they raise are compared with the model inside coqc.
-Search: the same runs are compared with functools.reduce / list slicing directly."""
+Search: the same runs are compared with functools.reduce / list slicing directly; map / mapreduce / currymap are also run on
+sequences of arbitrary values - classes of ==-equal elements of different types (0 / False / 0.0 / -0.0 / Decimal(0) ..), blocks that
+repeat exactly or up to ==, list and tuple inputs - with a mapper whose result depends on the exact type and repr of its argument;
+oracle: the built-in map; every distinct input element must reach the mapper and nothing else may."""
 import functools
 import itertools
 
@@ -18,7 +21,8 @@ from jug import TaskGenerator, value
 EVIDENCE = dict(
     level='proof',
     rule='cases = (input length, map_step, reduce_step) triples for the tree/value of mapreduce/reduce/map/currymap, '
-         'and (length, map_step, index | slice | slice-of-slice) for mapped sequences; a case is non-trivial when the input has >= 2 '
+         'and (length, map_step, index | slice | slice-of-slice) for mapped sequences, and (sequence of typed values, map_step, reduce_step) '
+         'for map/mapreduce/currymap with a type-sensitive mapper; a case is non-trivial when the input has >= 2 '
          'elements (trees) or the slice selects >= 1 element or raises; distinct = distinct case tuples',
     explanation='Coq theorems over the block/tree/slice model + differential evaluation of the model against jug.mapreduce',
 )
@@ -43,6 +47,123 @@ def concat(a, b):
 def affine(x):
     CALLS.append(x)
     return 7 * x + 3
+
+
+# ---- arbitrary values: classes of ==-equal elements of different types, and a mapper that tells them apart
+EQ_CLASSES = [
+    ['0', 'False', '0.0', '-0.0', 'Decimal(0)', 'Fraction(0)', '0j', 'np.int64(0)', 'np.bool_(False)'],
+    ['1', 'True', '1.0', 'Decimal(1)', 'Fraction(1)', '(1+0j)', 'np.int64(1)', 'np.float64(1.0)', 'np.bool_(True)'],
+    ['2', '2.0', 'Decimal(2)', 'Fraction(2)', 'np.float32(2.0)'],
+    ['(1,)', '(True,)', '(1.0,)'],
+    ["'a'", "np.str_('a')"],
+    ["b'a'", "np.bytes_(b'a')"],
+    ['None'], ["''"], ["'b'"], ['3'], ['-1'], ['2**70', 'float(2**70)'],
+]
+FLAT_CLASSES = [c for c in EQ_CLASSES if not c[0].startswith('(1,')]
+
+
+def ev(e):
+    from decimal import Decimal
+    from fractions import Fraction
+    import numpy as np
+    return eval(e, {'Decimal': Decimal, 'Fraction': Fraction, 'np': np})
+
+
+def tkey(x):
+    """what the type-sensitive mappers return: exact type and repr, recursively for tuples"""
+    if type(x) == tuple:
+        return ('tuple',) + tuple(tkey(y) for y in x)
+    return (type(x).__module__ + '.' + type(x).__qualname__, repr(x))
+
+
+def describe(x):
+    CALLS.append(tkey(x))
+    return tkey(x)
+
+
+def describe1(x):
+    CALLS.append(tkey(x))
+    return (tkey(x),)
+
+
+def describe2(x, y):
+    CALLS.append((tkey(x), tkey(y)))
+    return (tkey(x), tkey(y))
+
+
+def twist(rng, block, classes):
+    """an ==-equal block of other types: every element that has ==-equal variants is replaced by another one"""
+    out = []
+    for e in block:
+        cls = next(c for c in classes if e in c)
+        alt = [v for v in cls if v != e]
+        out.append(rng.choice(alt) if alt else e)
+    return out
+
+
+def gen_typed_sequence(rng, ms, classes):
+    """expressions of a sequence made of map_step-sized blocks: a base block, exact repeats of it, ==-equal copies of other
+    types, random blocks, possibly misaligned by a prefix and with a short last block"""
+    elem = lambda: rng.choice(rng.choice(classes))
+    base = [elem() for _ in range(ms)]
+    xs = [elem() for _ in range(rng.choice([0, 0, 0, 1, ms - 1 if ms > 1 else 0]))]
+    for _ in range(rng.randint(1, 4)):
+        r = rng.random()
+        if r < 0.3:
+            xs += base
+        elif r < 0.7:
+            xs += twist(rng, base, classes)
+        elif r < 0.8:
+            xs += twist(rng, base, classes)[::-1]
+        else:
+            xs += [elem() for _ in range(ms)]
+    xs += [elem() for _ in range(rng.choice([0, 0, 1, max(0, ms - 1)]))]
+    if rng.random() < 0.1:
+        xs = []
+    return xs
+
+
+def multiset_le(a, b):
+    b = list(b)
+    for x in a:
+        if x in b:
+            b.remove(x)
+        else:
+            return False
+    return True
+
+
+def run_typed(kind, exprs, ms, rs, as_tuple):
+    """run map / mapreduce / currymap of the real code on the sequence written as expressions; returns (expected, observed, calls,
+    inputs as mapper keys, block values or None)"""
+    jugrun.fresh()
+    del CALLS[:]
+    xs = [ev(e) for e in exprs]
+    if kind == 'currymap':
+        xs = [(xs[i], xs[i + 1]) for i in range(0, len(xs) - 1, 2)]
+    seq = tuple(xs) if as_tuple else list(xs)
+    blocks = None
+    if kind == 'map':
+        m = jug.mapreduce.map(describe, seq, map_step=ms)
+        jugrun.run_all_sequential()
+        obs = [value(m[i]) for i in range(len(m))]
+        if ms != 1:
+            blocks = [list(value(b)) for b in m.blocks]
+        exp = [tkey(x) for x in xs]
+        keys = exp
+    elif kind == 'mapreduce':
+        t = jug.mapreduce.mapreduce(concat, describe1, seq, map_step=ms, reduce_step=rs)
+        jugrun.run_all_sequential()
+        obs = list(value(t)) if xs else []
+        exp = [tkey(x) for x in xs]
+        keys = exp
+    else:
+        r = jug.mapreduce.currymap(describe2, seq, map_step=ms)
+        jugrun.run_all_sequential()
+        obs = [value(e) for e in r]
+        exp = [(tkey(a), tkey(b)) for a, b in xs]
+        keys = exp
+    return exp, obs, list(CALLS), keys, blocks
 
 
 tg_single = TaskGenerator(single)
@@ -185,6 +306,36 @@ def run(ck):
                                                   listlit([listlit([zlit(v) for v in b]) for b in blocks])))
                 cm_meta.append({'n': n, 'map_step': ms})
                 ck.distinct(('map', n, ms), n >= 2)
+    # ---- arbitrary typed values (==-equal elements of different types, repeated / ==-equal blocks), type-sensitive mappers
+    ids = {}
+    zid = lambda k: ids.setdefault(k, len(ids))
+    for it in range(ck.n(260, 2600)):
+        kind = ('map', 'mapreduce', 'currymap')[it % 3]
+        ms = ck.rng.choice([1, 2, 2, 3, 4])
+        rs = ck.rng.choice([2, 3, 4])
+        classes = FLAT_CLASSES if kind == 'currymap' else EQ_CLASSES
+        if it < 3:
+            exprs, ms = ['0', '1', 'False', 'True'] * (2 if kind == 'currymap' else 1), 2      # the smallest instance of the idea
+        elif kind == 'currymap':
+            # pairs: a typed sequence of 2*ms-sized super-blocks, so that blocks of pairs repeat up to ==
+            exprs = gen_typed_sequence(ck.rng, 2 * ms, classes)
+        else:
+            exprs = gen_typed_sequence(ck.rng, ms, classes)
+        as_tuple = ck.rng.random() < 0.3
+        exp, obs, calls, keys, blocks = run_typed(kind, exprs, ms, rs, as_tuple)
+        ck.distinct(('typed', kind, tuple(exprs), ms, rs, as_tuple), len(exprs) >= 2)
+        ck.count('typed:' + kind)
+        # every distinct input element reaches the mapper, nothing else does, none more often than it occurs (equal blocks
+        # are one task); the values are those of the built-in map
+        if obs != exp or set(calls) != set(keys) or not multiset_le(calls, keys):
+            ck.violation({'kind': 'impl-violation', 'what': '%s on typed values differs from the built-in map (or an element never reached the mapper)' % kind,
+                          'typed': kind, 'elements': exprs, 'map_step': ms, 'reduce_step': rs, 'as_tuple': as_tuple,
+                          'expected': repr(exp), 'observed': repr(obs), 'mapper_calls': repr(calls)})
+        if blocks is not None and exprs:
+            cm_cases.append('(%s, %s, %s)' % (listlit([zlit(zid(k)) for k in exp]), natlit(ms),
+                                              listlit([listlit([zlit(zid(v)) for v in b]) for b in blocks])))
+            cm_meta.append({'typed': 'map', 'elements': exprs, 'map_step': ms, 'as_tuple': as_tuple})
+    ck.sample({'kind': 'typed map', 'elements': gen_typed_sequence(ck.rng, 2, EQ_CLASSES), 'map_step': 2})
     chk = ('fun c => match c with (ys, ms, blocks) => list_eqb (list_eqb Z.eqb) (map_blocks ys ms) blocks && '
            'list_eqb Z.eqb (mapseq_value blocks) ys && '
            'list_eqb (option_eqb Z.eqb) (currymap_values blocks) (map Some ys) end')
@@ -305,6 +456,12 @@ Definition run_case (c : list Z * nat * scase) : bool :=
 def replay(obj):
     """Re-execute a recorded C17 case against /repo."""
     jugrun.fresh()
+    if 'typed' in obj and 'elements' in obj:
+        exp, obs, calls, keys, blocks = run_typed(obj['typed'], obj['elements'], obj['map_step'], obj.get('reduce_step', 2), obj.get('as_tuple', False))
+        print('expected', exp)
+        print('observed', obs)
+        print('mapper calls', calls)
+        return 0 if (obs == exp and set(calls) == set(keys) and multiset_le(calls, keys)) else 1
     if 'slice' in obj or 'index' in obj:
         n, ms = obj['n'], obj['map_step']
         xs = list(range(n))
